@@ -17,6 +17,7 @@
 import CorgiProofs.RealDeriv
 import CorgiProofs.RealClosures
 import CorgiProofs.LinearHeap
+import CorgiProofs.Adjoint
 
 namespace Corgi
 
@@ -210,4 +211,44 @@ theorem exHeap_shapeOK : ShapeOK exHeap := by
 
 end Corgi
 
+namespace Corgi
+variable {S : Type} [Add S] [Mul S] [Neg S] [Sub S] [ScalarOps S] [BEq S]
+
+/-- **`sum(k)`: the closure is the transpose of the forward map.**  Forward (C07, `sum_spec`): the block sums
+    `specSum a k`.  Closure (`sumBack_spec`): every element of the delta repeated over the block it summed.
+    For every well-formed operand and every delta of the result's shape, over a commutative ring:
+    `⟨sum(k)(a), x⟩ = ⟨a, closure(x)⟩` — the defining property of the transposed (Jacobian of the) linear map. -/
+theorem C02_sum_closure_is_transpose [AddLaws S] [MulLaws S] [CommLaws S] (a x : Tensor S) (k : Nat) (hk : 1 ≤ k)
+    (ha : a.WF) (hx : Shaped (a.dims.take (a.dims.length - k) ++ [1]) x) :
+    dot (specSum a k).vals x.vals
+      = dot a.vals (x.vals.flatMap (List.replicate (prod (a.dims.drop (a.dims.length - k))))) := by
+  rw [specSum_vals a k (by omega)]
+  apply blockSums_adjoint
+  · rw [← ha.2, ← prod_take_mul_drop a.dims (a.dims.length - k)]
+  · rw [hx.2, prod_append]; simp [prod]
+
+/-- **`reshape`: the closure is the transpose of the forward map** (both keep the buffer and change the
+    dimensions only): `⟨reshape(a), x⟩ = ⟨a, reshape-back(x)⟩`. -/
+theorem C02_reshape_closure_is_transpose (a x t back : Tensor S) (d : List Nat)
+    (hf : reshape a d = .ok t) (hb : reshape x a.dims = .ok back) : dot t.vals x.vals = dot a.vals back.vals := by
+  have h1 : t.vals = a.vals := by
+    unfold reshape Tensor.mk? at hf
+    split at hf
+    · simp [throw, throwThe, MonadExceptOf.throw] at hf
+    · split at hf
+      · simp [throw, throwThe, MonadExceptOf.throw] at hf
+      · simp only [pure, Except.pure, Except.ok.injEq] at hf; rw [← hf]
+  have h2 : back.vals = x.vals := by
+    unfold reshape Tensor.mk? at hb
+    split at hb
+    · simp [throw, throwThe, MonadExceptOf.throw] at hb
+    · split at hb
+      · simp [throw, throwThe, MonadExceptOf.throw] at hb
+      · simp only [pure, Except.pure, Except.ok.injEq] at hb; rw [← hb]
+  rw [h1, h2]
+
+end Corgi
+
 #print axioms Corgi.exHeap_shapeOK
+#print axioms Corgi.C02_sum_closure_is_transpose
+#print axioms Corgi.C02_reshape_closure_is_transpose
